@@ -3,6 +3,7 @@
 import json, subprocess
 props = [json.loads(l) for l in open('/verif/properties.jsonl')]
 T = {
+ "C20": ("exploration", "deterministic simulation: sparse multi-GiB/TiB SimDisks, FS-info hint at/before/past the last cluster, short seeded histories; device-offset bound check, contents/extents read back at independently computed 64-bit offsets, sparse-aware fsck"),
  "C08": ("exploration", "deterministic simulation: volumes from an independent spec-driven image builder (refgen) read through the library vs ground truth; seeded mutating sessions on them with model, independent fsck and raw-diff ownership audit, benign device faults"),
  "C19": ("exploration", "deterministic simulation: identical concrete histories replayed in three feature builds of the library (child processes), image fingerprint + observation-trace comparison, each build also checked against its own model"),
  "C17": ("fault_enumeration", "deterministic simulation: corrupt_at_rest fault enumeration on directory regions (pattern space of short LFN runs, per-byte sweeps, seeded slot soup), guarded read-only session vs independent slot decoder; run in the alloc and the fixed-buffer build"),
